@@ -181,6 +181,8 @@ def _patch_modules():
     circus.process.Popen = FakePopen
     circus.watcher.os = _os_proxy
     circus.arbiter.os = _os_proxy
+    circus.process.os = _os_proxy          # (no module of circus reaches the real kill / waitpid)
+    circus.util.os = _os_proxy
     circus.watcher.time = _time_proxy
     circus.arbiter.time = _time_proxy
     circus.process.time = _time_proxy
